@@ -62,7 +62,7 @@ func newStd(o StdOpt) *Std {
 	s.Follow1 = scA + "://" + hostA + "/f/1"
 	actors := []string{"alice", "carol"}
 	if o.QueryActor {
-		actors = append(actors, "quinn")
+		actors = append(actors, "quinn", "qroot")
 	}
 	a := ServerSpec{Host: hostA, Scheme: o.Scheme, MintScheme: o.MintScheme, Social: o.Social, Federating: o.Federating, Actors: actors,
 		OnFollow: o.OnFollow, DeliverDepth: o.DeliverDepth, ForwardDepth: o.ForwardDepth, Transport: o.Transport}
